@@ -354,9 +354,26 @@ ADD_TEXT = {
     "C06": " Round 5: 80 deterministic configurations for rules naming a header field (send/receive x interface/member/path/error x allow-after-deny/deny-after-allow x message types) against "
            "messages with, without and with another value of that field.",
 }
+ADD_TEXT["C18"] = (" Round 5: a first part of 'what every other client observes is the same as if the monitor were absent' is now a theorem: with every monitor turned back into "
+                   "an idle ordinary connection (shade) the policy gate gives the same verdicts, the same connections have a matching rule, and routing a message or sending a driver "
+                   "message produces the same ordinary deliveries, the same error and the same state (gate_ignores_monitors, others_observe_the_same_partial, "
+                   "driver_sends_the_same_partial; the side condition - monitors hold no ordinary rules - is what BecomeMonitor establishes, new_monitor_has_no_rules). Monitors "
+                   "whose filter names unique names (destination=':1.N', sender=':1.N') are checked by the trace oracle too, including after that peer has gone.")
+ADD_TEXT["C06"] += (" The configuration can be reloaded in the middle of a history (Ev.reload in the model: bus_connections_reload_policy gives every registered connection a freshly "
+                    "built policy; SIGHUP with a rewritten file on the daemon): reloaded_policy_governs, own_denied_after_reload (a RequestName the new rules deny changes nothing, also "
+                    "for a connection that already owns the name or waits for it).")
+ADD_TEXT["C16"] = (" Round 5: one odd byte (NUL, stray continuation, 0xff, lead byte) at every position of otherwise plain texts of every length up to 48 and around 64/128/256, alone and "
+                   "behind a two- or three-byte character, and every UTF-8 verdict is re-asked with the text at every offset 1..7 of its buffer (a validator that looks at a word at a "
+                   "time must still see every byte).")
+ADD_TEXT["C11"] = (" Round 5: streams with several descriptor-carrying messages (each in a write of its own, as the protocol demands), one of them split so that its head is read alone "
+                   "while its tail and the next descriptor-carrying message arrive together.")
+ADD_TEXT["C13"] += " The trace oracle keeps a ledger of outstanding calls per caller (a call delivered although its caller already has max_replies_per_connection calls outstanding, to whomever, is a violation)."
 NEW_NOTE = {
     "C09": "Partial: 'exactly one NoReply' is 'at most one, exactly one unless the caller's own receive policy refuses the bus's error'; when a recipient's queue is full is an input of the "
            "environment (stall events), not computed from message sizes; timer precision is not modelled (the virtual clock only ever stands at least 100 s away from any deadline).",
+    "C18": "Partial: the full non-interference statement (all histories) is tested differentially on the daemon and holds structurally in the model (mon is write-only); proved is the "
+           "one-dispatch congruence for routing and driver sends (…_partial), not yet the driver's methods, the disconnect path and the induction over histories; in the step in which a "
+           "connection turns into a monitor its own stream is compared as a multiset (the model keeps the two lists apart).",
     "C05": "Partial: when a queue is full is an input (stall events); which of several connections found ready in one turn of the main loop is served first is not predicted (any order is "
            "accepted); auto-start holding is C19's; the daemon is single-threaded, so 'the moment the bus processes it' is a step of the model.",
 }
